@@ -45,7 +45,7 @@ def run(model, tier="quick"):
     return res
 
 MANIFEST = {
-    "technique": "static failure-atomicity analysis: write-before-rejection dataflow over inlined operation bodies (ast abstract interpretation)",
+    "technique": "static failure-atomicity analysis: write-before-rejection dataflow over inlined operation bodies (ast abstract interpretation), plus cell-object mutation (alias) analysis for the order book and a rollback-exactness rule for compensation handlers",
     "claim": "Static analysis of all paths of every public state-changing operation of the six markets and the broker "
              "(callees inlined, powerset of abstract states): no write to holdings, wallet, visible order book or action "
              "log precedes a reachable rejection (raise/require/assert/closed-market gate) without rollback. Decides the "
